@@ -171,6 +171,13 @@ def run_case(desc, ctx):
         ref = RefSurface(len(V), F)
         kind = desc["singu"]
         singus = _pick_singularities(rng, kind, ref, len(V), F)
+        if cls == "pinched_ribbon" and rng.random() < 0.6:
+            # the two coincident ends of the pinched rung are singular (a zero-length path joins two singular border vertices)
+            Vp = np.asarray(V, float)
+            twins = [(a_, b_) for (a_, b_) in sorted(ref.edges) if np.array_equal(Vp[a_], Vp[b_])]
+            if twins:
+                singus = list(twins[0]) + ([rng.randrange(len(V))] if rng.random() < 0.4 else [])
+                kind = "pinched_rung"
         use_features = False
     else:
         z = surfaces.make(desc["seed"], max_size=desc["max_size"], tri_only=True, connected=True, allow_union=False, generic=rng.random() < 0.5)
